@@ -2,17 +2,22 @@ From Coq Require Import String List Bool Arith.
 From Verif Require Import Base.Str Base.Run C06.Model C06.Spec.
 Import ListNotations.
 
-Definition case := (input * verdict)%type.
+(* a case: the delivery (binding the caller names, Response/@Destination, abstract Response and receiver
+   state) and the verdict observed on the real Saml2Client.parse_authn_request_response *)
+Definition case := (delivery * verdict)%type.
 
-Definition mk (allow : bool) (out : list (string * string)) (irt : option string) (version : nat * nat)
-  (top : string) (second : option string) (assertions : list assertion_in) (obs : verdict) : case :=
-  ({| allow_unsolicited := allow; outstanding := out; irt := irt; version := version; status_top := top;
-      status_second := second; assertions := assertions |}, obs).
+Definition mk (b : binding) (d : destination) (allow : bool) (out : list (string * string)) (irt : option string)
+  (version : nat * nat) (top : string) (second : option string) (assertions : list assertion_in) (obs : verdict) : case :=
+  ({| via := b; dest := d;
+      resp := {| allow_unsolicited := allow; outstanding := out; irt := irt; version := version; status_top := top;
+                 status_second := second; assertions := assertions |} |}, obs).
 
-Definition agrees (c : case) : bool := verdict_eqb (accept (fst c)) (snd c).
-Definition holds (c : case) : bool := spec_b (fst c) (snd c).
+Definition agrees (c : case) : bool := verdict_eqb (receive (fst c)) (snd c).
+Definition holds (c : case) : bool := spec_d_b (fst c) (snd c).
 Definition cls (c : case) : nat := 0.
 Definition run := run_cases agrees holds cls.
 Definition explain (c : case) :=
-  (accept (fst c), (correlated_b (fst c) (snd c), status_respected_b (fst c) (snd c), shape_respected_b (fst c) (snd c),
-   accepted_when_fine_b (fst c) (snd c), status_raised_when_fine_b (fst c) (snd c))).
+  let x := resp (fst c) in
+  (receive (fst c), (browser (via (fst c)), well_addressed (fst c)),
+   (correlated_b x (snd c), status_respected_b x (snd c), shape_respected_b x (snd c),
+    accepted_when_fine_b x (snd c), status_raised_when_fine_b x (snd c))).
